@@ -242,7 +242,7 @@ type Region struct {
 
 // Reach is the mutable storage reachable from a value.
 type Reach struct {
-	Regions []Region          // pointer targets and slice backing arrays (non-zero size)
+	Regions []Region           // pointer targets and slice backing arrays (non-zero size)
 	Maps    map[uintptr]string // Go maps and channels by identity -> first access path
 	// Depth is the largest number of indirections (pointer hops, descents into a non-empty
 	// slice, descents into a non-empty map) on any path.
